@@ -13,6 +13,7 @@ mod cmd_setmeta;
 mod cmd_group;
 mod cmd_termid;
 mod cmd_cats;
+mod cmd_reject;
 #[cfg(hpo_verif)]
 mod cmd_algo;
 mod enc;
@@ -45,6 +46,7 @@ fn main() {
         "replay-group" => cmd_group::run(&args),
         "replay-termid" => cmd_termid::run(&args),
         "replay-cats" => cmd_cats::run(&args),
+        "replay-reject" => cmd_reject::run(&args),
         #[cfg(hpo_verif)]
         "record-algo" => cmd_algo::run(&args),
         "debug-mismatch" => cmd_binary::debug_mismatch(&args),
@@ -68,6 +70,7 @@ fn main() {
                 "replay-group" => cmd_group::replay_one(&v),
                 "replay-termid" => cmd_termid::replay_one(&v),
                 "replay-cats" => cmd_cats::replay_one(&v),
+                "replay-reject" => cmd_reject::replay_one(&v),
                 other => {
                     eprintln!("unknown replay cmd {other}");
                     std::process::exit(2)
